@@ -1494,6 +1494,770 @@ Section Live.
           as (fuel2 & Hfin); [intros j Hj; apply Hc1; lia|lia|].
         exists (fuel1 + fuel2)%nat. rewrite run_add, Hrun1. exact Hfin.
   Qed.
+  (** * Every fault schedule
+
+      The rest of this section drops every assumption about where the faults fall.  [G] is an
+      invariant of the closed system under every schedule (as long as the sender has not given
+      up): the sender is in the window after block [a], the receiver holds [c] blocks of which
+      [j] are buffered and is either inside that window ([c = a + j]) or has just completed it
+      ([c = a + wlen], its ACK possibly lost), every datagram in flight towards the receiver is
+      a block of the file that the sender has sent, every datagram in flight towards the sender
+      acknowledges a block the receiver has flushed.  From any such state, once the faults have
+      stopped, one more time-out is enough to get the transfer moving again
+      ([recover_advance]), so it completes ([recover_complete]). *)
+
+  (** ** Steps of the closed system in the general position *)
+
+  Lemma step_recv_gen : forall s r d q h n rs, r_phase r = RRun ->
+    step (mk_pair s r (mk_chan (d :: q) h n) rs) =
+      Some (mk_pair s (fst (recv_step rc r (EvDgram 0 d))) (mk_chan q h n)
+                    (chan_puts f_rs rs (acked_bytes (snd (recv_step rc r (EvDgram 0 d)))))).
+  Proof. exact step_recv. Qed.
+
+  Definition recv_idle (r : rstate) (sr : chan) : Prop := ch_q sr = [] \/ r_running r = false.
+
+  Lemma step_send_gen : forall s r sr d q h' n', recv_idle r sr -> s_phase s = SInWindow ->
+    step (mk_pair s r sr (mk_chan (d :: q) h' n')) =
+      Some (mk_pair (fst (send_step sc s (EvDgram 0 d))) r
+                    (chan_puts f_sr sr (sent_bytes (snd (send_step sc s (EvDgram 0 d)))))
+                    (mk_chan q h' n')).
+  Proof.
+    intros s r sr d q h' n' Hi Hp. unfold pair_step. cbn [p_sr p_r p_s p_rs ch_q ch_held ch_n].
+    unfold s_running. rewrite Hp. destruct (send_step sc s (EvDgram 0 d)) as [s' out].
+    destruct Hi as [Hi|Hi]; rewrite Hi; [reflexivity|]. destruct (ch_q sr); reflexivity.
+  Qed.
+
+  Lemma step_tmo_gen : forall s r sr h' n', recv_idle r sr -> s_phase s = SInWindow ->
+    step (mk_pair s r sr (mk_chan [] h' n')) =
+      Some (mk_pair (fst (send_step sc s (EvFail (s_tmo sc)))) r
+                    (chan_puts f_sr sr (sent_bytes (snd (send_step sc s (EvFail (s_tmo sc))))))
+                    (mk_chan [] h' n')).
+  Proof.
+    intros s r sr h' n' Hi Hp. unfold pair_step. cbn [p_sr p_r p_s p_rs ch_q ch_held ch_n].
+    unfold s_running. rewrite Hp. destruct (send_step sc s (EvFail (s_tmo sc))) as [s' out].
+    destruct Hi as [Hi|Hi]; rewrite Hi; [reflexivity|]. destruct (ch_q sr); reflexivity.
+  Qed.
+
+  (** An ACK of any block before the window: nothing happens. *)
+  Lemma send_stale_gen : forall st a r c', SS st a r -> c' <= a -> nb <= 65535 ->
+    exists st', send_step sc st (EvDgram 0 (ack_dgram c')) = (st', []) /\ SS st' a r /\ wlen st' = wlen st.
+  Proof.
+    intros st a r c' Hss Hle Hn. pose proof (SS_len _ _ _ Hss) as (Ha & Hlen & Hpos).
+    destruct Hss as (Hi & Hp & Ht & Habs & Hsince & Hretry).
+    pose proof (receive_ack_dgram c' 0) as Hr.
+    pose proof Hi as [(A & B & C & D & E & G & I & J & K & L) _].
+    assert (Hout : ~ (wsub16 (c' mod 65536) (s_bn st) < lenN (w_elems (s_w st)))).
+    { rewrite E, Habs. unfold wsub16. unfold wlen in *. destruct Hwf as (_ & _ & Hw). lia. }
+    exists (with_since st 0). split.
+    - apply (stale_ack_is_inert sc F st _ _ Hwf Hi Hp Hr Hout). cbn [ev_delay]. lia.
+    - split; [|reflexivity]. unfold SS. cbn [with_since s_phase s_abs s_since s_retry].
+      split; [apply with_since_inv; exact Hi|]. split; [exact Hp|]. split; [exact Ht|]. split; [exact Habs|]. split; [lia|exact Hretry].
+  Qed.
+
+  (** The time-out that exhausts the budget: the sender gives up. *)
+  Lemma send_give_up : forall st a r, SS st a r -> r + 1 = max_retries ->
+    exists st', send_step sc st (EvFail (s_tmo sc)) = (st', []) /\ s_phase st' = SDone OutTimeout.
+  Proof.
+    intros st a r (Hi & Hp & Ht & Habs & Hsince & Hretry) Hr.
+    rewrite step_failed_attempt by (auto; exact I). rewrite Hretry.
+    destruct (N.eqb_spec (r + 1) max_retries) as [_|Ne]; [|contradiction].
+    eexists. split; [reflexivity|]. reflexivity.
+  Qed.
+
+  (** ** The invariant *)
+
+  Definition dat_ok (top : N) (d : bytes) : Prop := exists k, d = data_dgram blk F k /\ 1 <= k <= top.
+
+  Definition ackG (a top c : N) (d : bytes) : Prop :=
+    exists c', d = ack_dgram c' /\ (c' <= a \/ (c' = top /\ c = top)).
+
+  Definition RG (r : rstate) (a wl c j : N) : Prop :=
+    ((exists hist, RS hist r c j) /\ ((c = a + j /\ j < wl) \/ (c = a + wl /\ j = 0 /\ c < nb)))
+    \/ (r_phase r = RDone OutOk /\ written_bytes (w_file (r_w r)) = F /\ c = nb /\ c = a + wl /\ j = 0).
+
+  Definition G (p : pair_state) (a r0 c j : N) : Prop :=
+    SS (p_s p) a r0 /\ RG (p_r p) a (wlen (p_s p)) c j /\
+    Forall (dat_ok (a + wlen (p_s p))) (in_flight (p_sr p)) /\
+    Forall (ackG a (a + wlen (p_s p)) c) (in_flight (p_rs p)).
+
+  Lemma in_flight_tail : forall (P : bytes -> Prop) d q h n,
+    Forall P (in_flight (mk_chan (d :: q) h n)) -> P d /\ Forall P (in_flight (mk_chan q h n)).
+  Proof.
+    intros P d q h n H. unfold in_flight in *. cbn [ch_q ch_held] in *. cbn [app] in H.
+    inversion H; subst. split; assumption.
+  Qed.
+
+  (** What the receiver makes of the datagram at the head of its queue. *)
+  Lemma G_recv : forall s r d q h n rs a r0 c j, nb <= 65535 ->
+    G (mk_pair s r (mk_chan (d :: q) h n) rs) a r0 c j -> r_phase r = RRun ->
+    exists r' acks c' j',
+      step (mk_pair s r (mk_chan (d :: q) h n) rs) = Some (mk_pair s r' (mk_chan q h n) (chan_puts f_rs rs acks)) /\
+      G (mk_pair s r' (mk_chan q h n) (chan_puts f_rs rs acks)) a r0 c' j' /\
+      ((d = data_dgram blk F (c + 1) /\ c = a + j /\ c' = c + 1 /\
+          ((j + 1 < wlen s /\ acks = [] /\ j' = j + 1 /\ r_phase r' = RRun) \/
+           (j + 1 = wlen s /\ acks = [ack_dgram (c + 1)] /\ j' = 0)))
+       \/ (d <> data_dgram blk F (c + 1) /\ c' = c /\ j' = j /\ r_phase r' = RRun /\
+           acks = if j =? 0 then [ack_dgram c] else [])).
+  Proof.
+    intros s r d q h n rs a r0 c j Hn (Hss & Hrg & Hsr & Hrs) Hp. cbn [p_s p_r p_sr p_rs] in *.
+    pose proof (SS_len _ _ _ Hss) as (Ha & Hlen & Hpos). set (wl := wlen s) in *.
+    destruct (in_flight_tail _ _ _ _ _ Hsr) as [(k & -> & Hk1 & Hk2) Hsr'].
+    rewrite step_recv_gen by exact Hp.
+    destruct Hrg as [[(hist & Hrs0) Hrel]|(Hd & _)]; [|congruence].
+    destruct (N.eq_dec k (c + 1)) as [->|Hne].
+    - (* the next block *)
+      assert (Hc : c = a + j /\ j < wl) by (destruct Hrel as [?|(? & ? & ?)]; [assumption|lia]).
+      destruct Hc as [Hc Hj].
+      destruct (recv_in_seq hist r c j Hrs0 ltac:(lia)) as (r' & out & E & Hres). rewrite E. cbn [fst snd].
+      assert (Hflush : (c + 1 =? nb) || (j + 1 =? ws) = (j + 1 =? wl)) by lia.
+      rewrite Hflush in Hres. destruct (N.eqb_spec (j + 1) wl) as [Hfl|Hnf].
+      + destruct Hres as [Hout Hst]. exists r', [ack_dgram (c + 1)], (c + 1), 0. rewrite Hout.
+        split; [reflexivity|]. split.
+        * unfold G. cbn [p_s p_r p_sr p_rs]. fold wl. split; [exact Hss|]. split.
+          -- unfold RG. destruct (N.eqb_spec (c + 1) nb) as [Hl|Hnl].
+             ++ right. destruct Hst as [H1 H2]. repeat split; try assumption; lia.
+             ++ left. split; [eexists; exact Hst|]. right. lia.
+          -- split; [exact Hsr'|]. apply Forall_in_flight_puts.
+             ++ eapply Forall_impl; [|exact Hrs]. intros x (c' & -> & Hx). exists c'. split; [reflexivity|]. lia.
+             ++ constructor; [|constructor]. exists (c + 1). split; [reflexivity|]. right. lia.
+        * left. repeat split; try reflexivity; try assumption. right. repeat split; try reflexivity. exact Hfl.
+      + destruct Hres as [-> Hst]. exists r', [], (c + 1), (j + 1).
+        cbn [acked_bytes sent_bytes map filter]. split; [reflexivity|]. split.
+        * unfold G. cbn [p_s p_r p_sr p_rs]. fold wl. split; [exact Hss|]. split.
+          -- left. split; [eexists; exact Hst|]. left. lia.
+          -- split; [exact Hsr'|]. change (chan_puts f_rs rs []) with rs.
+             eapply Forall_impl; [|exact Hrs]. intros x (c' & -> & Hx). exists c'. split; [reflexivity|]. lia.
+        * left. repeat split; try reflexivity; try assumption. left. repeat split; try reflexivity; try lia. apply Hst.
+    - (* any other block *)
+      destruct (recv_out_seq hist r c j k Hrs0 ltac:(lia)) as (r' & out & E & Hst & Hout). rewrite E. cbn [fst snd].
+      exists r', (if j =? 0 then [ack_dgram c] else []), c, j. rewrite Hout.
+      split; [reflexivity|]. split.
+      + unfold G. cbn [p_s p_r p_sr p_rs]. fold wl. split; [exact Hss|]. split.
+        * left. split; [eexists; exact Hst|exact Hrel].
+        * split; [exact Hsr'|]. apply Forall_in_flight_puts; [exact Hrs|].
+          destruct (N.eqb_spec j 0) as [Hz|_]; [|constructor]. constructor; [|constructor].
+          exists c. split; [reflexivity|]. destruct Hrel as [?|(? & ? & ?)]; [left; lia|right; lia].
+      + right. split.
+        * intros Heq. pose proof (receive_data k 0) as R1. pose proof (receive_data (c + 1) 0) as R2.
+          rewrite Heq, R2 in R1. injection R1 as R1 _. lia.
+        * repeat split; try reflexivity. apply Hst.
+  Qed.
+
+  Lemma In_datas : forall m k0 x, In x (datas k0 m) -> exists k, x = data_dgram blk F k /\ k0 <= k < k0 + N.of_nat m.
+  Proof.
+    intros m. induction m as [|m IH]; intros k0 x H; cbn [datas In] in H; [contradiction|].
+    destruct H as [<-|H]; [exists k0; split; [reflexivity|lia]|].
+    destruct (IH _ _ H) as (k & -> & Hk). exists k. split; [reflexivity|lia].
+  Qed.
+
+  Lemma RG_idle_SS : forall r a wl c j, RG r a wl c j -> r_running r = true \/ r_phase r = RDone OutOk.
+  Proof.
+    intros r a wl c j [[(hist & H) _]|(H & _)]; [left|right; exact H].
+    destruct H as (_ & Hp & _). unfold r_running. rewrite Hp. reflexivity.
+  Qed.
+
+  (** What the sender makes of the datagram at the head of its queue. *)
+  Lemma G_send : forall s r sr d q h n a r0 c j, nb <= 65535 ->
+    G (mk_pair s r sr (mk_chan (d :: q) h n)) a r0 c j -> recv_idle r sr ->
+    exists s' burst,
+      step (mk_pair s r sr (mk_chan (d :: q) h n)) = Some (mk_pair s' r (chan_puts f_sr sr burst) (mk_chan q h n)) /\
+      ((d <> ack_dgram (a + wlen s) /\ burst = [] /\ wlen s' = wlen s /\
+        G (mk_pair s' r sr (mk_chan q h n)) a r0 c j)
+       \/ (d = ack_dgram (a + wlen s) /\ c = a + wlen s /\ j = 0 /\
+           ((c = nb /\ burst = [] /\ s_phase s' = SDone OutOk) \/
+            (c < nb /\ burst = datas (c + 1) (N.to_nat (wlen s')) /\
+             G (mk_pair s' r (chan_puts f_sr sr burst) (mk_chan q h n)) c 0 c 0)))).
+  Proof.
+    intros s r sr d q h n a r0 c j Hn (Hss & Hrg & Hsr & Hrs) Hidle. cbn [p_s p_r p_sr p_rs] in *.
+    pose proof (SS_len _ _ _ Hss) as (Ha & Hlen & Hpos). set (wl := wlen s) in *.
+    destruct (in_flight_tail _ _ _ _ _ Hrs) as [(c' & -> & Hc') Hrs'].
+    rewrite step_send_gen by (try exact Hidle; apply Hss).
+    destruct Hc' as [Hle|[-> Hctop]].
+    - (* an old ACK *)
+      destruct (send_stale_gen s a r0 c' Hss Hle Hn) as (s' & E & Hss' & Hl'). rewrite E. cbn [fst snd sent_bytes map filter].
+      exists s', []. split; [reflexivity|]. left. split.
+      + intros Heq. pose proof (receive_ack_dgram c' 0) as R1. pose proof (receive_ack_dgram (a + wl) 0) as R2.
+        rewrite Heq, R2 in R1. injection R1 as R1. lia.
+      + split; [reflexivity|]. split; [exact Hl'|].
+        unfold G. cbn [p_s p_r p_sr p_rs]. rewrite Hl'. fold wl.
+        split; [exact Hss'|]. split; [exact Hrg|]. split; [exact Hsr|exact Hrs'].
+    - (* the ACK of the whole window *)
+      assert (Hj : j = 0).
+      { destruct Hrg as [[_ [(? & ?)|(? & ? & ?)]]|(_ & _ & _ & _ & ?)]; [lia|assumption|assumption]. }
+      destruct (send_ack_window s a r0 Hss) as (s' & out & E & Hres). fold wl in E, Hres. rewrite E. cbn [fst snd].
+      exists s', (sent_bytes out). split; [reflexivity|]. right. split; [reflexivity|]. split; [exact Hctop|]. split; [exact Hj|].
+      subst c j.
+      destruct (N.eqb_spec (a + wl) nb) as [Hlast|Hnot].
+      + destruct Hres as [-> Hd]. left. split; [lia|]. split; [reflexivity|exact Hd].
+      + destruct Hres as [Hss' Hout]. right. split; [lia|]. rewrite Hout. split; [reflexivity|].
+        pose proof (SS_len _ _ _ Hss') as (Ha' & Hlen' & Hpos').
+        unfold G. cbn [p_s p_r p_sr p_rs]. split; [exact Hss'|]. split.
+        * destruct Hrg as [[Hh [(? & ?)|(_ & _ & Hlt)]]|(_ & _ & ? & _)]; [lia| |lia].
+          left. split; [exact Hh|]. left. lia.
+        * split.
+          -- apply Forall_in_flight_puts.
+             ++ eapply Forall_impl; [|exact Hsr]. intros x (k & -> & Hk). exists k. split; [reflexivity|]. lia.
+             ++ rewrite Forall_forall. intros x Hx. destruct (In_datas _ _ _ Hx) as (k & -> & Hk).
+                exists k. split; [reflexivity|]. lia.
+          -- eapply Forall_impl; [|exact Hrs']. intros x (c'' & -> & Hx). exists c''. split; [reflexivity|]. left. lia.
+  Qed.
+
+  Lemma SS_retry : forall st a r, SS st a r -> r < max_retries.
+  Proof. intros st a r (((_ & _ & _ & _ & _ & _ & _ & _ & _ & L) & _) & _ & _ & _ & _ & Hr). rewrite <- Hr. exact L. Qed.
+
+  (** The sender's time-out. *)
+  Lemma G_tmo : forall s r sr h n a r0 c j,
+    G (mk_pair s r sr (mk_chan [] h n)) a r0 c j -> recv_idle r sr ->
+    (r0 + 1 < max_retries /\
+     exists s', step (mk_pair s r sr (mk_chan [] h n)) =
+                  Some (mk_pair s' r (chan_puts f_sr sr (datas (a + 1) (N.to_nat (wlen s)))) (mk_chan [] h n)) /\
+                wlen s' = wlen s /\
+                G (mk_pair s' r (chan_puts f_sr sr (datas (a + 1) (N.to_nat (wlen s)))) (mk_chan [] h n)) a (r0 + 1) c j)
+    \/ (r0 + 1 = max_retries /\
+        exists s', step (mk_pair s r sr (mk_chan [] h n)) = Some (mk_pair s' r sr (mk_chan [] h n)) /\
+                   s_phase s' = SDone OutTimeout).
+  Proof.
+    intros s r sr h n a r0 c j (Hss & Hrg & Hsr & Hrs) Hidle. cbn [p_s p_r p_sr p_rs] in *.
+    pose proof (SS_retry _ _ _ Hss) as Hr0.
+    rewrite step_tmo_gen by (try exact Hidle; apply Hss).
+    destruct (N.eq_dec (r0 + 1) max_retries) as [Heq|Hne].
+    - right. split; [exact Heq|]. destruct (send_give_up s a r0 Hss Heq) as (s' & E & Hd). rewrite E. cbn [fst snd sent_bytes map filter].
+      exists s'. split; [reflexivity|exact Hd].
+    - left. split; [lia|]. destruct (send_retx s a r0 Hss ltac:(lia)) as (s' & out & E & Hss' & Hl' & Hout).
+      rewrite E. cbn [fst snd]. rewrite Hout. exists s'. split; [reflexivity|]. split; [exact Hl'|].
+      unfold G. cbn [p_s p_r p_sr p_rs]. rewrite Hl'. split; [exact Hss'|]. split; [exact Hrg|]. split; [|exact Hrs].
+      apply Forall_in_flight_puts; [exact Hsr|]. rewrite Forall_forall. intros x Hx.
+      destruct (In_datas _ _ _ Hx) as (k & -> & Hk). exists k. split; [reflexivity|]. lia.
+  Qed.
+
+  (** [G] holds initially, whatever happens to the first window. *)
+  Lemma G_init : exists a r0 c j, G (pair_init sc rc f_sr F) a r0 c j.
+  Proof.
+    destruct init_emit as (s0 & -> & Hss). pose proof (SS_len _ _ _ Hss) as (Ha & Hlen & Hpos).
+    exists 0, 0, 0, 0. unfold emit_state, G. cbn [p_s p_r p_sr p_rs repeat].
+    split; [exact Hss|]. split.
+    - left. split; [exists []; exact recv_init_RS|]. left. lia.
+    - split; [|constructor]. apply Forall_in_flight_puts; [constructor|]. rewrite Forall_forall. intros x Hx.
+      destruct (In_datas _ _ _ Hx) as (k & -> & Hk). exists k. split; [reflexivity|]. lia.
+  Qed.
+
+  Definition sender_left (p : pair_state) : Prop := s_running (p_s p) = false.
+
+  (** One step from a [G] state: [G] again, or the sender has ended. *)
+  Lemma G_step : forall p p' a r0 c j, nb <= 65535 -> G p a r0 c j -> step p = Some p' ->
+    (exists a' r0' c' j', G p' a' r0' c' j') \/ sender_left p'.
+  Proof.
+    intros [s r [q1 h1 n1] [q2 h2 n2]] p' a r0 c j Hn Hg Hstep.
+    pose proof Hg as (Hss & Hrg & _). cbn [p_s p_r] in Hss, Hrg.
+    destruct (RG_idle_SS _ _ _ _ _ Hrg) as [Hrun|Hdone].
+    - destruct q1 as [|d q1].
+      + assert (Hidle : recv_idle r (mk_chan [] h1 n1)) by (left; reflexivity).
+        destruct q2 as [|d q2].
+        * destruct (G_tmo _ _ _ _ _ _ _ _ _ Hg Hidle) as [(_ & s' & E & _ & Hg')|(_ & s' & E & Hd)];
+            rewrite E in Hstep; injection Hstep as <-.
+          -- left. eauto.
+          -- right. unfold sender_left, s_running. cbn [p_s]. rewrite Hd. reflexivity.
+        * destruct (G_send _ _ _ _ _ _ _ _ _ _ _ Hn Hg Hidle) as (s' & burst & E & Hres).
+          rewrite E in Hstep. injection Hstep as <-.
+          destruct Hres as [(_ & -> & _ & Hg')|(_ & _ & _ & [(_ & _ & Hd)|(_ & _ & Hg')])].
+          -- left. eauto.
+          -- right. unfold sender_left, s_running. cbn [p_s]. rewrite Hd. reflexivity.
+          -- left. eauto.
+      + assert (Hp : r_phase r = RRun) by (unfold r_running in Hrun; destruct (r_phase r); [reflexivity|discriminate]).
+        destruct (G_recv _ _ _ _ _ _ _ _ _ _ _ Hn Hg Hp) as (r' & acks & c' & j' & E & Hg' & _).
+        rewrite E in Hstep. injection Hstep as <-. left. eauto.
+    - assert (Hidle : recv_idle r (mk_chan q1 h1 n1)) by (right; unfold r_running; rewrite Hdone; reflexivity).
+      destruct q2 as [|d q2].
+      + destruct (G_tmo _ _ _ _ _ _ _ _ _ Hg Hidle) as [(_ & s' & E & _ & Hg')|(_ & s' & E & Hd)];
+          rewrite E in Hstep; injection Hstep as <-.
+        * left. eauto.
+        * right. unfold sender_left, s_running. cbn [p_s]. rewrite Hd. reflexivity.
+      + destruct (G_send _ _ _ _ _ _ _ _ _ _ _ Hn Hg Hidle) as (s' & burst & E & Hres).
+        rewrite E in Hstep. injection Hstep as <-.
+        destruct Hres as [(_ & -> & _ & Hg')|(_ & _ & _ & [(_ & _ & Hd)|(_ & _ & Hg')])].
+        * left. eauto.
+        * right. unfold sender_left, s_running. cbn [p_s]. rewrite Hd. reflexivity.
+        * left. eauto.
+  Qed.
+
+  Lemma sender_left_step : forall p p', sender_left p -> step p = Some p' -> sender_left p'.
+  Proof.
+    intros p p' Hl Hstep. unfold sender_left in *. unfold pair_step in Hstep. rewrite Hl in Hstep.
+    destruct (ch_q (p_sr p)) as [|d q]; destruct (r_running (p_r p)); destruct (ch_q (p_rs p)) as [|d2 q2];
+      try discriminate;
+      match type of Hstep with (let '(_, _) := ?x in _) = _ => destruct x end; injection Hstep as <-; exact Hl.
+  Qed.
+
+  (** [G] is an invariant of every run, under every fault schedule, until the sender ends. *)
+  Lemma G_run : forall fuel p, nb <= 65535 -> (exists a r0 c j, G p a r0 c j) \/ sender_left p ->
+    (exists a r0 c j, G (run fuel p) a r0 c j) \/ sender_left (run fuel p).
+  Proof.
+    intros fuel. induction fuel as [|fuel IH]; intros p Hn H; cbn [pair_run]; [exact H|].
+    destruct (step p) as [p'|] eqn:E; [|exact H]. apply IH; [exact Hn|].
+    destruct H as [(a & r0 & c & j & Hg)|Hl].
+    - exact (G_step _ _ _ _ _ _ Hn Hg E).
+    - right. exact (sender_left_step _ _ Hl E).
+  Qed.
+
+  (** ** Once the faults have stopped *)
+
+  (** What an undisturbed channel makes of a burst: a datagram held back earlier comes out
+      behind the first one. *)
+  Definition weave (h : option bytes) (ds : list bytes) : list bytes :=
+    match ds, h with
+    | d :: ds', Some x => d :: x :: ds'
+    | _, _ => ds
+    end.
+
+  Lemma chan_puts_weave : forall fs q h n ds, clean_from fs n ->
+    chan_puts fs (mk_chan q h n) ds =
+      mk_chan (q ++ weave h ds) (match ds with [] => h | _ => None end) (n + lenN ds).
+  Proof.
+    intros fs q h n ds Hc. destruct ds as [|d ds].
+    - unfold chan_puts. cbn [fold_left weave]. destruct h; rewrite app_nil_r, lenN_nil, N.add_0_r; reflexivity.
+    - destruct h as [x|]; cbn [weave].
+      + apply chan_puts_release. intros i Hi. apply Hc. lia.
+      + apply chan_puts_clean. intros i Hi. apply Hc. lia.
+  Qed.
+
+  Lemma ch_n_puts : forall fs ds c, ch_n (chan_puts fs c ds) = ch_n c + lenN ds.
+  Proof.
+    intros fs ds. induction ds as [|d ds IH]; intros c.
+    - unfold chan_puts. cbn [fold_left]. rewrite lenN_nil. lia.
+    - rewrite chan_puts_cons, IH, lenN_cons.
+      assert (ch_n (chan_put fs c d) = ch_n c + 1).
+      { unfold chan_put. destruct (fault_at fs (ch_n c)); try reflexivity. destruct (ch_held c); reflexivity. }
+      lia.
+  Qed.
+
+  Lemma clean_from_mono : forall fs lo lo', lo <= lo' -> clean_from fs lo -> clean_from fs lo'.
+  Proof. intros fs lo lo' Hle H i Hi. apply H. lia. Qed.
+
+  Definition CL (p : pair_state) : Prop :=
+    clean_from f_sr (ch_n (p_sr p)) /\ clean_from f_rs (ch_n (p_rs p)).
+
+  Definition msr (p : pair_state) : nat :=
+    (2 * length (in_flight (p_sr p)) + length (in_flight (p_rs p)))%nat.
+
+  Lemma in_flight_weave_length : forall q h n ds,
+    length (in_flight (mk_chan (q ++ weave h ds) (match ds with [] => h | _ => None end) n)) =
+    (length (in_flight (mk_chan q h n)) + length ds)%nat.
+  Proof.
+    intros q h n ds. unfold in_flight. cbn [ch_q ch_held].
+    destruct ds as [|d ds]; destruct h as [x|]; cbn [weave]; rewrite ?app_length; cbn [length]; rewrite ?app_length; cbn [length]; lia.
+  Qed.
+
+  (** Order-preserving embedding of a list of datagrams in a queue. *)
+  Inductive subseq : list bytes -> list bytes -> Prop :=
+  | subseq_nil : forall q, subseq [] q
+  | subseq_take : forall x l q, subseq l q -> subseq (x :: l) (x :: q)
+  | subseq_skip : forall x l q, subseq l q -> subseq l (x :: q).
+
+  Lemma subseq_tail : forall x l q, subseq (x :: l) q -> subseq l q.
+  Proof.
+    intros x l q H. remember (x :: l) as xl eqn:E. revert x l E.
+    induction H as [q|y l' q H IH|y l' q H IH]; intros x l E; [discriminate| |].
+    - injection E as -> ->. apply subseq_skip. exact H.
+    - apply subseq_skip. eapply IH. exact E.
+  Qed.
+
+  Lemma subseq_pop : forall x l d q, subseq (x :: l) (d :: q) -> subseq l q /\ (d <> x -> subseq (x :: l) q).
+  Proof.
+    intros x l d q H. inversion H; subst.
+    - split; [assumption|]. intros Hne. contradiction.
+    - split; [eapply subseq_tail; eassumption|]. intros _. assumption.
+  Qed.
+
+  Lemma subseq_refl : forall l, subseq l l.
+  Proof. intros l. induction l; constructor; assumption. Qed.
+
+  Lemma subseq_app_l : forall l q q', subseq l q -> subseq l (q' ++ q).
+  Proof. intros l q q' H. induction q' as [|x q' IH]; [exact H|]. cbn [app]. apply subseq_skip. exact IH. Qed.
+
+  Lemma subseq_app_r : forall l q q', subseq l q -> subseq l (q ++ q').
+  Proof. intros l q q' H. induction H; cbn [app]; constructor; assumption. Qed.
+
+  Lemma subseq_weave : forall l h ds, subseq l ds -> subseq l (weave h ds).
+  Proof.
+    intros l h ds H. destruct ds as [|d ds]; [exact H|]. destruct h as [x|]; [|exact H]. cbn [weave].
+    inversion H; subst.
+    - constructor.
+    - apply subseq_take. apply subseq_skip. assumption.
+    - apply subseq_skip. apply subseq_skip. assumption.
+  Qed.
+
+  Lemma data_dgram_inj : forall k k', k <= 65535 -> k' <= 65535 -> data_dgram blk F k = data_dgram blk F k' -> k = k'.
+  Proof.
+    intros k k' Hk Hk' Heq. pose proof (receive_data k 0) as R1. pose proof (receive_data k' 0) as R2.
+    rewrite Heq, R2 in R1. injection R1 as R1 _. lia.
+  Qed.
+
+  Lemma ack_dgram_inj : forall k k', k <= 65535 -> k' <= 65535 -> ack_dgram k = ack_dgram k' -> k = k'.
+  Proof.
+    intros k k' Hk Hk' Heq. pose proof (receive_ack_dgram k 0) as R1. pose proof (receive_ack_dgram k' 0) as R2.
+    rewrite Heq, R2 in R1. injection R1 as R1. lia.
+  Qed.
+
+  (** The receiver is still at work, or its last ACK is on its way. *)
+  Definition LiveOK (p : pair_state) : Prop :=
+    r_phase (p_r p) = RDone OutOk -> In (ack_dgram nb) (ch_q (p_rs p)).
+
+  (** After a retransmission: what will make the sender advance is queued. *)
+  Definition Pend (p : pair_state) (top c : N) : Prop :=
+    (c < top -> subseq (datas (c + 1) (N.to_nat (top - c))) (ch_q (p_sr p))) /\
+    (c = top -> In (ack_dgram top) (ch_q (p_rs p)) \/ (r_running (p_r p) = true /\ ch_q (p_sr p) <> [])).
+
+  Definition quiescent (p : pair_state) : Prop := ch_q (p_rs p) = [] /\ recv_idle (p_r p) (p_sr p).
+
+  Lemma quiescent_dec : forall p, quiescent p \/ ~ quiescent p.
+  Proof.
+    intros p. unfold quiescent, recv_idle. destruct (ch_q (p_rs p)); [|right; intros [H _]; discriminate].
+    destruct (ch_q (p_sr p)); [left; split; [reflexivity|left; reflexivity]|].
+    destruct (r_running (p_r p)); [right; intros [_ [H|H]]; discriminate|left; split; [reflexivity|right; reflexivity]].
+  Qed.
+
+  Lemma chan_puts_nil : forall fs c, chan_puts fs c [] = c.
+  Proof. reflexivity. Qed.
+
+  Lemma RG_done : forall r a wl c j, RG r a wl c j -> r_phase r = RDone OutOk ->
+    written_bytes (w_file (r_w r)) = F /\ c = nb /\ c = a + wl /\ j = 0.
+  Proof.
+    intros r a wl c j [[(hist & (_ & Hp & _)) _]|(_ & H)] Hd; [congruence|exact H].
+  Qed.
+
+  Lemma RG_top : forall r a wl c j, RG r a wl c j -> 1 <= wl -> c = a + wl ->
+    j = 0 /\ (c = nb -> r_phase r = RDone OutOk /\ written_bytes (w_file (r_w r)) = F) /\
+    (c < nb -> r_phase r = RRun).
+  Proof.
+    intros r a wl c j [[(hist & (_ & Hp & _)) [(? & ?)|(? & ? & ?)]]|(H1 & H2 & H3 & H4 & H5)] Hwl Hc.
+    - lia.
+    - split; [assumption|]. split; [lia|]. intros _. exact Hp.
+    - split; [assumption|]. split; [intros _; split; assumption|lia].
+  Qed.
+
+  (** One step with the faults over, away from quiescence: the transfer is finished, or the
+      sender has moved to the next window, or something in flight has been consumed. *)
+  Lemma clean_step : forall p a r0 c j, nb <= 65535 -> G p a r0 c j -> CL p -> LiveOK p -> ~ quiescent p ->
+    exists p', step p = Some p' /\ CL p' /\
+      (Final p'
+       \/ (exists a', a < a' /\ G p' a' 0 a' 0 /\ LiveOK p')
+       \/ (exists c' j', G p' a r0 c' j' /\ LiveOK p' /\ (msr p' < msr p)%nat /\ wlen (p_s p') = wlen (p_s p) /\
+             (Pend p (a + wlen (p_s p)) c -> Pend p' (a + wlen (p_s p)) c'))).
+  Proof.
+    intros [s r [q1 h1 n1] [q2 h2 n2]] a r0 c j Hn Hg [Hc1 Hc2] Hlive Hnq.
+    cbn [p_s p_r p_sr p_rs ch_n] in *.
+    pose proof Hg as (Hss & Hrg & Hsr & Hrs). cbn [p_s p_r p_sr p_rs] in Hss, Hrg, Hsr, Hrs.
+    pose proof (SS_len _ _ _ Hss) as (Ha & Hlen & Hpos). set (wl := wlen s) in *. set (top := a + wl) in *.
+    assert (Hcase : (exists d q, q1 = d :: q /\ r_phase r = RRun) \/
+                    (recv_idle r (mk_chan q1 h1 n1) /\ exists d q, q2 = d :: q)).
+    { destruct q1 as [|d q1].
+      - right. split; [left; reflexivity|]. destruct q2 as [|d q2]; [|eauto].
+        exfalso. apply Hnq. split; [reflexivity|left; reflexivity].
+      - destruct (r_phase r) eqn:Hp; [left; eauto|].
+        right. split; [right; unfold r_running; rewrite Hp; reflexivity|]. destruct q2 as [|d2 q2]; [|eauto].
+        exfalso. apply Hnq. split; [reflexivity|right; unfold r_running; cbn [p_r]; rewrite Hp; reflexivity]. }
+    destruct Hcase as [(d & q & -> & Hp)|(Hidle & d & q & ->)].
+    - (* the receiver takes a datagram *)
+      destruct (G_recv _ _ _ _ _ _ _ _ _ _ _ Hn Hg Hp) as (r' & acks & c' & j' & E & Hg' & Hdesc).
+      rewrite chan_puts_weave in E, Hg' by exact Hc2.
+      eexists. split; [exact E|]. split.
+      { split; cbn [p_sr p_rs ch_n]; [exact Hc1|]. eapply clean_from_mono; [|exact Hc2]. lia. }
+      right. right. exists c', j'. split; [exact Hg'|].
+      assert (Hacks : (length acks <= 1)%nat).
+      { destruct Hdesc as [(_ & _ & _ & [(_ & -> & _)|(_ & -> & _)])|(_ & _ & _ & _ & ->)]; cbn [length]; try lia.
+        destruct (j =? 0); cbn [length]; lia. }
+      split; [|split; [|split; [reflexivity|]]].
+      + (* the receiver's last ACK is queued *)
+        intros Hd. cbn [p_r p_rs ch_q] in *.
+        destruct Hdesc as [(_ & Hcj & -> & [(_ & _ & _ & Hrun)|(Hfl & -> & _)])|(_ & _ & _ & Hrun & _)]; try congruence.
+        destruct Hg' as (_ & Hrg' & _). cbn [p_r] in Hrg'.
+        destruct (RG_done _ _ _ _ _ Hrg' Hd) as (_ & Hnb & _). rewrite Hnb.
+        apply in_or_app. right. destruct h2; cbn [weave]; left; reflexivity.
+      + unfold msr. cbn [p_sr p_rs]. rewrite in_flight_weave_length. unfold in_flight. cbn [ch_q ch_held app length]. lia.
+      + (* what was pending still is *)
+        fold wl. fold top. intros [P1 P2]. unfold Pend in *. cbn [p_s p_r p_sr p_rs ch_q] in *.
+        destruct Hdesc as [(-> & Hcj & -> & [(Hnf & -> & -> & Hrun)|(Hfl & -> & ->)])|(Hne & -> & -> & Hrun & ->)].
+        * split; [|intros Heq; unfold top in Heq; lia]. intros Hlt. specialize (P1 ltac:(lia)).
+          replace (N.to_nat (top - c)) with (S (N.to_nat (top - (c + 1)))) in P1 by lia. cbn [datas] in P1.
+          apply subseq_pop in P1. apply P1.
+        * split; [intros Hlt; unfold top in Hlt; lia|]. intros _. left. apply in_or_app. right.
+          replace top with (c + 1) by (unfold top; lia). destruct h2; cbn [weave]; left; reflexivity.
+        * split.
+          -- intros Hlt. specialize (P1 Hlt).
+             replace (N.to_nat (top - c)) with (S (N.to_nat (top - (c + 1)))) in * by lia. cbn [datas] in *.
+             apply subseq_pop in P1. apply P1. exact Hne.
+          -- intros Heq. destruct (P2 Heq) as [Hin|_]; [left; apply in_or_app; left; exact Hin|].
+             left. apply in_or_app. right.
+             destruct (RG_top _ _ _ _ _ Hrg Hpos Heq) as (-> & _). cbn [N.eqb]. rewrite Heq.
+             destruct h2; cbn [weave]; left; reflexivity.
+    - (* the sender takes a datagram *)
+      destruct (G_send _ _ _ _ _ _ _ _ _ _ _ Hn Hg Hidle) as (s' & burst & E & Hres).
+      eexists. split; [exact E|].
+      destruct Hres as [(Hne & -> & Hl' & Hg')|(-> & Hctop & -> & [(Hlast & -> & Hd)|(Hmore & -> & Hg')])].
+      + (* an old ACK *)
+        rewrite chan_puts_nil. split; [split; assumption|]. right. right. exists c, j. split; [exact Hg'|].
+        split; [|split; [|split; [exact Hl'|]]].
+        * intros Hd. cbn [p_r p_rs ch_q] in *. destruct (Hlive Hd) as [Heq|Hin]; [exfalso|exact Hin].
+          destruct (RG_done _ _ _ _ _ Hrg Hd) as (_ & Hnb & Hct & _). apply Hne. rewrite Heq. fold wl. f_equal. lia.
+        * unfold msr, in_flight. cbn [p_sr p_rs ch_q ch_held app length]. lia.
+        * fold wl. fold top. intros [P1 P2]. unfold Pend in *. cbn [p_s p_r p_sr p_rs ch_q] in *. split; [exact P1|].
+          intros Heq. destruct (P2 Heq) as [[Hx|Hin]|Hr]; [exfalso; apply Hne; exact Hx|left; exact Hin|right; exact Hr].
+      + (* the last ACK of the transfer *)
+        rewrite chan_puts_nil. split; [split; assumption|]. left.
+        fold wl in Hctop. destruct (RG_top _ _ _ _ _ Hrg Hpos Hctop) as (_ & Hfin & _). destruct (Hfin Hlast) as [H1 H2].
+        unfold Final. cbn [p_s p_r]. split; [exact H1|]. split; [exact H2|exact Hd].
+      + (* the ACK of the window: the next window goes out *)
+        split.
+        { split; cbn [p_sr p_rs ch_n]; [|exact Hc2]. rewrite ch_n_puts. eapply clean_from_mono; [|exact Hc1]. cbn [ch_n]. lia. }
+        right. left. exists c. split; [fold wl in Hctop; lia|]. split; [exact Hg'|].
+        intros Hd. cbn [p_r] in Hd. fold wl in Hctop.
+        destruct (RG_top _ _ _ _ _ Hrg Hpos Hctop) as (_ & _ & Hrun). rewrite (Hrun Hmore) in Hd. discriminate.
+  Qed.
+
+  (** Everything in flight is consumed: the transfer is finished, or the sender has moved to the
+      next window, or the system has fallen silent. *)
+  Lemma drain : forall m p a r0 c j, (msr p <= m)%nat -> nb <= 65535 -> G p a r0 c j -> CL p -> LiveOK p ->
+    exists fuel p', run fuel p = p' /\ CL p' /\
+      (Final p'
+       \/ (exists a', a < a' /\ G p' a' 0 a' 0 /\ LiveOK p')
+       \/ (exists c' j', G p' a r0 c' j' /\ LiveOK p' /\ quiescent p' /\ wlen (p_s p') = wlen (p_s p) /\
+             (Pend p (a + wlen (p_s p)) c -> Pend p' (a + wlen (p_s p)) c'))).
+  Proof.
+    intros m. induction m as [|m IH]; intros p a r0 c j Hm Hn Hg Hcl Hlive.
+    all: destruct (quiescent_dec p) as [Hq|Hnq];
+      [exists O, p; split; [reflexivity|]; split; [exact Hcl|]; right; right; exists c, j;
+       split; [exact Hg|]; split; [exact Hlive|]; split; [exact Hq|]; split; [reflexivity|intros H; exact H]|].
+    all: destruct (clean_step p a r0 c j Hn Hg Hcl Hlive Hnq) as (p1 & E & Hcl1 & Hres).
+    all: destruct Hres as [Hfin|[Hadv|(c1 & j1 & Hg1 & Hlive1 & Hlt & Hwl1 & Hpend1)]];
+      try (exists 1%nat, p1; cbn [pair_run]; rewrite E; split; [reflexivity|]; split; [exact Hcl1|]; tauto).
+    - lia.
+    - destruct (IH p1 a r0 c1 j1 ltac:(lia) Hn Hg1 Hcl1 Hlive1) as (fuel & p' & Hrun & Hcl' & Hres').
+      exists (S fuel), p'. cbn [pair_run]. rewrite E. split; [exact Hrun|]. split; [exact Hcl'|].
+      destruct Hres' as [Hfin|[Hadv|(c' & j' & Hg' & Hlive' & Hq' & Hwl' & Hpend')]]; [tauto|tauto|].
+      right. right. exists c', j'. split; [exact Hg'|]. split; [exact Hlive'|]. split; [exact Hq'|].
+      split; [congruence|]. intros HP. rewrite Hwl1 in Hpend'. apply Hpend'. apply Hpend1. exact HP.
+  Qed.
+
+  (** Silence, the faults over: the sender's timer fires, and the window it sends again holds
+      everything the receiver still needs. *)
+  Lemma clean_tmo : forall p a r0 c j, G p a r0 c j -> CL p -> LiveOK p -> quiescent p -> r0 + 1 < max_retries ->
+    exists p', step p = Some p' /\ CL p' /\ G p' a (r0 + 1) c j /\ LiveOK p' /\ wlen (p_s p') = wlen (p_s p) /\
+      Pend p' (a + wlen (p_s p)) c.
+  Proof.
+    intros [s r [q1 h1 n1] [q2 h2 n2]] a r0 c j Hg [Hc1 Hc2] Hlive [Hq2 Hidle] Hr0.
+    cbn [p_s p_r p_sr p_rs ch_n ch_q] in *. subst q2.
+    pose proof Hg as (Hss & Hrg & Hsr & Hrs). cbn [p_s p_r p_sr p_rs] in Hss, Hrg, Hsr, Hrs.
+    pose proof (SS_len _ _ _ Hss) as (Ha & Hlen & Hpos). set (wl := wlen s) in *. set (top := a + wl) in *.
+    assert (Hp : r_phase r = RRun).
+    { destruct (RG_idle_SS _ _ _ _ _ Hrg) as [Hrun|Hd]; [unfold r_running in Hrun; destruct (r_phase r); [reflexivity|discriminate]|].
+      destruct (Hlive Hd). }
+    assert (Hq1 : q1 = []).
+    { destruct Hidle as [H|H]; [exact H|]. unfold r_running in H. cbn [p_r] in H. rewrite Hp in H. discriminate. }
+    subst q1.
+    destruct (G_tmo _ _ _ _ _ _ _ _ _ Hg Hidle) as [(_ & s' & E & Hl' & Hg')|(Hx & _)]; [|lia].
+    fold wl in E, Hg'. rewrite chan_puts_weave in E, Hg' by exact Hc1. cbn [app] in E, Hg'.
+    eexists. split; [exact E|]. split.
+    { split; cbn [p_sr p_rs ch_n]; [|exact Hc2]. eapply clean_from_mono; [|exact Hc1]. lia. }
+    split; [exact Hg'|]. split; [intros Hd; cbn [p_r] in Hd; congruence|]. split; [exact Hl'|].
+    unfold Pend. cbn [p_s p_r p_sr p_rs ch_q]. split.
+    - intros Hlt. fold top in Hlt.
+      assert (Hcj : c = a + j /\ j < wl).
+      { destruct Hrg as [[_ [?|(? & ? & ?)]]|(Hd & _)]; [assumption|unfold top in Hlt; lia|congruence]. }
+      destruct Hcj as [Hcj Hj]. apply subseq_weave.
+      replace (N.to_nat wl) with (N.to_nat j + N.to_nat (top - c))%nat by (unfold top; lia).
+      rewrite datas_app. apply subseq_app_l.
+      replace (a + 1 + N.of_nat (N.to_nat j)) with (c + 1) by lia. apply subseq_refl.
+    - intros _. right. split; [unfold r_running; rewrite Hp; reflexivity|].
+      destruct (N.to_nat wl) as [|m] eqn:Em; [lia|]. cbn [datas]. destruct h1; cbn [weave]; discriminate.
+  Qed.
+
+  (** From any state the system can be in, once the faults have stopped and the sender can still
+      afford one time-out: the transfer finishes or the sender reaches the next window. *)
+  Lemma recover_advance : forall p a r0 c j, nb <= 65535 -> G p a r0 c j -> CL p -> LiveOK p -> r0 + 1 < max_retries ->
+    exists fuel p', run fuel p = p' /\ CL p' /\ (Final p' \/ exists a', a < a' /\ G p' a' 0 a' 0 /\ LiveOK p').
+  Proof.
+    intros p a r0 c j Hn Hg Hcl Hlive Hr0.
+    destruct (drain (msr p) p a r0 c j (Nat.le_refl _) Hn Hg Hcl Hlive) as (f1 & p1 & Hrun1 & Hcl1 & Hres1).
+    destruct Hres1 as [Hfin|[Hadv|(c1 & j1 & Hg1 & Hlive1 & Hq1 & Hwl1 & _)]];
+      [exists f1, p1; tauto|exists f1, p1; tauto|].
+    destruct (clean_tmo p1 a r0 c1 j1 Hg1 Hcl1 Hlive1 Hq1 Hr0) as (p2 & E2 & Hcl2 & Hg2 & Hlive2 & Hwl2 & Hpend2).
+    destruct (drain (msr p2) p2 a (r0 + 1) c1 j1 (Nat.le_refl _) Hn Hg2 Hcl2 Hlive2) as (f3 & p3 & Hrun3 & Hcl3 & Hres3).
+    assert (Hrun : run (f1 + (1 + f3)) p = p3).
+    { rewrite run_add, Hrun1, run_add. cbn [pair_run]. rewrite E2. exact Hrun3. }
+    exists (f1 + (1 + f3))%nat, p3. split; [exact Hrun|]. split; [exact Hcl3|].
+    destruct Hres3 as [Hfin|[Hadv|(c3 & j3 & Hg3 & Hlive3 & Hq3 & Hwl3 & Hpend3)]]; [tauto|tauto|exfalso].
+    rewrite Hwl2 in Hpend3. specialize (Hpend3 Hpend2). clear Hpend2.
+    destruct Hg3 as (Hss3 & Hrg3 & _). pose proof (SS_len _ _ _ Hss3) as (_ & _ & Hpos3).
+    rewrite Hwl3, Hwl2 in Hrg3, Hpos3. set (top := a + wlen (p_s p1)) in *.
+    destruct Hq3 as [Hq3 Hidle3]. destruct Hpend3 as [P1 P2]. rewrite Hq3 in P2.
+    destruct Hrg3 as [[(hist & (_ & Hp3 & _)) [(Hc & Hj)|(Hc & _ & _)]]|(Hd & _ & _ & Hc & _)].
+    - (* inside the window: the blocks it needs were queued *)
+      assert (Hidle : ch_q (p_sr p3) = []).
+      { destruct Hidle3 as [H|H]; [exact H|]. unfold r_running in H. rewrite Hp3 in H. discriminate. }
+      rewrite Hidle in P1. specialize (P1 ltac:(unfold top; lia)).
+      destruct (N.to_nat (top - c3)) as [|m] eqn:Em; [unfold top in Em; lia|]. cbn [datas] in P1. inversion P1.
+    - destruct (P2 Hc) as [[]|[Hrn Hne]]. destruct Hidle3 as [H|H]; [contradiction|congruence].
+    - destruct (P2 Hc) as [[]|[Hrn _]]. unfold r_running in Hrn. rewrite Hd in Hrn. discriminate.
+  Qed.
+
+  Lemma recover_complete : forall k p a r0 c j, nb - a <= N.of_nat k -> nb <= 65535 ->
+    G p a r0 c j -> CL p -> LiveOK p -> r0 + 1 < max_retries ->
+    exists fuel, Final (run fuel p).
+  Proof.
+    intros k. induction k as [|k IH]; intros p a r0 c j Hk Hn Hg Hcl Hlive Hr0;
+      pose proof (SS_len _ _ _ (proj1 Hg)) as (Ha & _ & _); [lia|].
+    destruct (recover_advance p a r0 c j Hn Hg Hcl Hlive Hr0) as (f1 & p1 & Hrun1 & Hcl1 & [Hfin|(a' & Hlt & Hg1 & Hlive1)]).
+    - exists f1. rewrite Hrun1. exact Hfin.
+    - destruct (IH p1 a' 0 a' 0 ltac:(lia) Hn Hg1 Hcl1 Hlive1 one_retry) as (f2 & Hfin).
+      exists (f1 + f2)%nat. rewrite run_add, Hrun1. exact Hfin.
+  Qed.
+
+  (** Every fault schedule, any number of steps into the run: if from here on nothing more is
+      disturbed, neither side has ended and the sender can afford one more time-out, the
+      transfer completes on both sides with exactly the file. *)
+  Lemma recovers_from_run : forall fuel0, nb <= 65535 ->
+    let p := run fuel0 (pair_init sc rc f_sr F) in
+    CL p -> s_phase (p_s p) = SInWindow -> s_retry (p_s p) + 1 < max_retries -> r_phase (p_r p) = RRun ->
+    exists fuel, Final (run fuel p).
+  Proof.
+    intros fuel0 Hn p Hcl Hs Hr Hrr.
+    destruct (G_run fuel0 (pair_init sc rc f_sr F) Hn (or_introl G_init)) as [(a & r0 & c & j & Hg)|Hl].
+    - fold p in Hg. pose proof (proj1 Hg) as Hss. destruct Hss as (_ & _ & _ & _ & _ & Hr0).
+      apply (recover_complete (N.to_nat nb) p a r0 c j); try assumption; try lia.
+      intros Hd. congruence.
+    - fold p in Hl. unfold sender_left, s_running in Hl. rewrite Hs in Hl. discriminate.
+  Qed.
+
+  (** ** Every schedule ends *)
+
+  (** The entries of a fault schedule that can still strike: those for datagrams not yet sent. *)
+  Definition pending (fs : list (N * fault)) (n : N) : nat := length (filter (fun e => n <=? fst e) fs).
+
+  Lemma pending_mono : forall fs n n', n <= n' -> (pending fs n' <= pending fs n)%nat.
+  Proof.
+    intros fs n n' Hle. unfold pending. induction fs as [|[i f] fs IH]; cbn [filter fst length]; [lia|].
+    destruct (N.leb_spec n' i); destruct (N.leb_spec n i); cbn [length]; lia.
+  Qed.
+
+  Lemma pending_cases : forall fs n n', n <= n' -> clean fs n n' \/ (pending fs n' < pending fs n)%nat.
+  Proof.
+    intros fs n n' Hle. induction fs as [|[i f] fs IH].
+    - left. intros k _. reflexivity.
+    - pose proof (pending_mono fs n n' Hle) as Hm. unfold pending in *. cbn [filter fst].
+      destruct (N.leb_spec n' i); destruct (N.leb_spec n i); cbn [length]; try lia.
+      + destruct IH as [IH|IH]; [left|right; lia].
+        intros k Hk. cbn [fault_at]. destruct (N.eqb_spec i k); [lia|]. apply IH. exact Hk.
+      + destruct IH as [IH|IH]; [left|right; lia].
+        intros k Hk. cbn [fault_at]. destruct (N.eqb_spec i k); [lia|]. apply IH. exact Hk.
+  Qed.
+
+  Lemma chan_puts_weave_b : forall fs q h n ds, clean fs n (n + lenN ds) ->
+    chan_puts fs (mk_chan q h n) ds =
+      mk_chan (q ++ weave h ds) (match ds with [] => h | _ => None end) (n + lenN ds).
+  Proof.
+    intros fs q h n ds Hc. destruct ds as [|d ds].
+    - unfold chan_puts. cbn [fold_left weave]. destruct h; rewrite app_nil_r, lenN_nil, N.add_0_r; reflexivity.
+    - destruct h as [x|]; cbn [weave].
+      + apply chan_puts_release. exact Hc.
+      + apply chan_puts_clean. exact Hc.
+  Qed.
+
+  Definition pend (p : pair_state) : nat :=
+    (pending f_sr (ch_n (p_sr p)) + pending f_rs (ch_n (p_rs p)))%nat.
+
+  (** The sender's transfer is over: completed on both sides, or given up after the retry limit. *)
+  Definition ended (p : pair_state) : Prop := Final p \/ s_phase (p_s p) = SDone OutTimeout.
+
+  (** Lexicographic descent: a scheduled fault has struck, or the sender has moved to the next
+      window, or it has used one more of its attempts, or something in flight has been consumed. *)
+  Definition lexdec (p : pair_state) (a r0 : N) (p' : pair_state) (a' r0' : N) : Prop :=
+    (pend p' < pend p)%nat \/
+    ((pend p' <= pend p)%nat /\ (a < a' \/ (a' = a /\ (r0 < r0' \/ (r0' = r0 /\ (msr p' < msr p)%nat))))).
+
+  Lemma any_step : forall p a r0 c j, nb <= 65535 -> G p a r0 c j ->
+    exists p', step p = Some p' /\
+      (ended p' \/ exists a' r0' c' j', G p' a' r0' c' j' /\ lexdec p a r0 p' a' r0').
+  Proof.
+    intros [s r [q1 h1 n1] [q2 h2 n2]] a r0 c j Hn Hg.
+    pose proof Hg as (Hss & Hrg & Hsr & Hrs). cbn [p_s p_r p_sr p_rs] in Hss, Hrg, Hsr, Hrs.
+    pose proof (SS_len _ _ _ Hss) as (Ha & Hlen & Hpos).
+    assert (Hcase : (exists d q, q1 = d :: q /\ r_phase r = RRun) \/ recv_idle r (mk_chan q1 h1 n1)).
+    { destruct q1 as [|d q1]; [right; left; reflexivity|].
+      destruct (r_phase r) eqn:Hp; [left; eauto|right; right; unfold r_running; rewrite Hp; reflexivity]. }
+    destruct Hcase as [(d & q & -> & Hp)|Hidle].
+    - (* the receiver takes a datagram *)
+      destruct (G_recv _ _ _ _ _ _ _ _ _ _ _ Hn Hg Hp) as (r' & acks & c' & j' & E & Hg' & Hdesc).
+      eexists. split; [exact E|]. right. exists a, r0, c', j'. split; [exact Hg'|].
+      assert (Hacks : (length acks <= 1)%nat).
+      { destruct Hdesc as [(_ & _ & _ & [(_ & -> & _)|(_ & -> & _)])|(_ & _ & _ & _ & ->)]; cbn [length]; try lia.
+        destruct (j =? 0); cbn [length]; lia. }
+      unfold lexdec, pend, msr. cbn [p_sr p_rs ch_n]. rewrite ch_n_puts. cbn [ch_n].
+      destruct (pending_cases f_rs n2 (n2 + lenN acks) ltac:(lia)) as [Hcl|Hhit]; [right|left; lia].
+      split; [pose proof (pending_mono f_rs n2 (n2 + lenN acks) ltac:(lia)); lia|].
+      right. split; [reflexivity|]. right. split; [reflexivity|].
+      rewrite chan_puts_weave_b by exact Hcl. rewrite in_flight_weave_length.
+      unfold in_flight. cbn [ch_q ch_held app length]. lia.
+    - destruct q2 as [|d q2].
+      + (* silence: the sender's timer fires *)
+        destruct (G_tmo _ _ _ _ _ _ _ _ _ Hg Hidle) as [(Hr0 & s' & E & Hl' & Hg')|(_ & s' & E & Hd)].
+        * eexists. split; [exact E|]. right. exists a, (r0 + 1), c, j. split; [exact Hg'|].
+          unfold lexdec, pend. cbn [p_sr p_rs ch_n]. rewrite ch_n_puts. cbn [ch_n]. right.
+          split; [pose proof (pending_mono f_sr n1 (n1 + lenN (datas (a + 1) (N.to_nat (wlen s)))) ltac:(lia)); lia|].
+          right. split; [reflexivity|]. left. lia.
+        * eexists. split; [exact E|]. left. right. exact Hd.
+      + (* the sender takes a datagram *)
+        destruct (G_send _ _ _ _ _ _ _ _ _ _ _ Hn Hg Hidle) as (s' & burst & E & Hres).
+        eexists. split; [exact E|].
+        destruct Hres as [(Hne & -> & Hl' & Hg')|(-> & Hctop & -> & [(Hlast & -> & Hd)|(Hmore & -> & Hg')])].
+        * rewrite chan_puts_nil. right. exists a, r0, c, j. split; [exact Hg'|].
+          unfold lexdec, pend, msr, in_flight. cbn [p_sr p_rs ch_n ch_q ch_held app length]. right. split; [lia|].
+          right. split; [reflexivity|]. right. split; [reflexivity|]. lia.
+        * left. left. destruct (RG_top _ _ _ _ _ Hrg Hpos Hctop) as (_ & Hfin & _). destruct (Hfin Hlast) as [H1 H2].
+          unfold Final. cbn [p_s p_r]. split; [exact H1|]. split; [exact H2|exact Hd].
+        * right. exists c, 0, c, 0. split; [exact Hg'|].
+          unfold lexdec, pend. cbn [p_sr p_rs ch_n]. rewrite ch_n_puts. cbn [ch_n]. right.
+          split; [pose proof (pending_mono f_sr n1 (n1 + lenN (datas (c + 1) (N.to_nat (wlen s')))) ltac:(lia)); lia|].
+          left. lia.
+  Qed.
+
+  Lemma ended_stuck : forall p fuel, ended p -> ended (run fuel p).
+  Proof.
+    intros p fuel. revert p. induction fuel as [|fuel IH]; intros p He; cbn [pair_run]; [exact He|].
+    destruct (step p) as [p'|] eqn:E; [|exact He]. apply IH.
+    assert (Hl : sender_left p).
+    { unfold sender_left, s_running. destruct He as [(_ & _ & H)| H]; rewrite H; reflexivity. }
+    assert (Hs : p_s p' = p_s p).
+    { unfold pair_step in E. unfold sender_left in Hl. rewrite Hl in E.
+      destruct (ch_q (p_sr p)) as [|d q]; destruct (r_running (p_r p)) eqn:Hr; destruct (ch_q (p_rs p)) as [|d2 q2];
+        try discriminate;
+        match type of E with (let '(_, _) := ?x in _) = _ => destruct x end; injection E as <-; reflexivity. }
+    destruct He as [(H1 & H2 & H3)|H3]; [left|right; rewrite Hs; exact H3].
+    unfold Final. rewrite Hs. split; [|split; [|exact H3]].
+    all: unfold pair_step in E; unfold r_running in E; rewrite H1 in E;
+      unfold sender_left in Hl; rewrite Hl in E;
+      destruct (ch_q (p_sr p)); destruct (ch_q (p_rs p)); try discriminate.
+  Qed.
+
+  Lemma terminates_from : forall pf k t m p a r0 c j, nb <= 65535 -> G p a r0 c j ->
+    (pend p <= pf)%nat -> nb - a <= N.of_nat k -> max_retries - r0 <= N.of_nat t -> (msr p <= m)%nat ->
+    exists fuel, ended (run fuel p).
+  Proof.
+    intros pf. induction pf as [pf IHpf] using lt_wf_ind.
+    intros k. induction k as [k IHk] using lt_wf_ind.
+    intros t. induction t as [t IHt] using lt_wf_ind.
+    intros m. induction m as [m IHm] using lt_wf_ind.
+    intros p a r0 c j Hn Hg Hpf Hk Ht Hm.
+    destruct (any_step p a r0 c j Hn Hg) as (p' & E & [He|(a' & r0' & c' & j' & Hg' & Hdec)]).
+    - exists 1%nat. cbn [pair_run]. rewrite E. exact He.
+    - assert (Hrec : exists fuel, ended (run fuel p')).
+      { pose proof (SS_len _ _ _ (proj1 Hg')) as (Ha' & _ & _). pose proof (SS_retry _ _ _ (proj1 Hg')) as Hr'.
+        destruct Hdec as [H1|(H0 & [H2|(-> & [H3|(-> & H4)])])].
+        - apply (IHpf (pend p') ltac:(lia) (N.to_nat (nb - a')) (N.to_nat (max_retries - r0')) (msr p') p' a' r0' c' j'); try assumption; lia.
+        - apply (IHk (N.to_nat (nb - a')) ltac:(lia) (N.to_nat (max_retries - r0')) (msr p') p' a' r0' c' j'); try assumption; lia.
+        - apply (IHt (N.to_nat (max_retries - r0')) ltac:(lia) (msr p') p' a r0' c' j'); try assumption; lia.
+        - apply (IHm (msr p') ltac:(lia) p' a r0 c' j'); try assumption; lia. }
+      destruct Hrec as (fuel & Hfin). exists (S fuel). cbn [pair_run]. rewrite E. exact Hfin.
+  Qed.
   End Pair.
 
   (** * The theorems *)
@@ -1652,6 +2416,99 @@ Section Live.
     - apply nil_clean.
     - exists fuel. split; [exact H1|]. split; [exact H2|exact H3].
   Qed.
+
+  (** C04, every fault schedule: drops, repetitions and reorderings in any number and any
+      combination on both channels, any number of steps into the run.  If from that point on
+      nothing more is disturbed, neither side has ended and the sender's retry budget leaves
+      room for one more time-out, then the transfer completes: both sides end in success and
+      the receiver's file is the sender's file.  (The bound on the file length is that of
+      [cosim_safe]: no block number is used twice.) *)
+  Theorem cosim_recovers : forall f_sr f_rs fuel0, nb <= 65535 ->
+    let p := pair_run sc rc f_sr f_rs fuel0 (pair_init sc rc f_sr F) in
+    clean_from f_sr (ch_n (p_sr p)) -> clean_from f_rs (ch_n (p_rs p)) ->
+    s_phase (p_s p) = SInWindow -> s_retry (p_s p) + 1 < max_retries -> r_phase (p_r p) = RRun ->
+    exists fuel,
+      let p' := pair_run sc rc f_sr f_rs fuel p in
+      r_phase (p_r p') = RDone OutOk /\ written_bytes (w_file (r_w (p_r p'))) = F /\ s_phase (p_s p') = SDone OutOk.
+  Proof.
+    intros f_sr f_rs fuel0 Hn p Hc1 Hc2 Hs Hr Hrr.
+    destruct (recovers_from_run f_sr f_rs fuel0 Hn (conj Hc1 Hc2) Hs Hr Hrr) as (fuel & Hfin).
+    exists fuel. exact Hfin.
+  Qed.
+
+  (** Under every fault schedule, as long as the sender has not ended: the sender's window and the
+      receiver's position differ by at most one window, and nothing else is in flight than blocks
+      of the file up to the end of the sender's window and ACKs of windows the receiver completed. *)
+  Theorem cosim_general_invariant : forall f_sr f_rs fuel, nb <= 65535 ->
+    let p := pair_run sc rc f_sr f_rs fuel (pair_init sc rc f_sr F) in
+    s_phase (p_s p) = SInWindow ->
+    exists a r0 c j, G p a r0 c j.
+  Proof.
+    intros f_sr f_rs fuel Hn p Hs.
+    destruct (G_run f_sr f_rs fuel (pair_init sc rc f_sr F) Hn (or_introl (G_init f_sr))) as [H|Hl]; [exact H|].
+    fold p in Hl. unfold sender_left, s_running in Hl. rewrite Hs in Hl. discriminate.
+  Qed.
+
+  (** C04, the statement itself, for the closed system: under EVERY fault schedule - drops,
+      repetitions and reorderings in any number and combination, on both channels - the run
+      reaches a state in which the transfer has completed on both sides with exactly the file, or
+      the sender has given up because the retry limit of consecutive failed attempts was reached.
+      Nothing else can happen: no dead-lock, no live-lock, no other failure.  (When the ACK of
+      the final block is among the lost datagrams the second case is RFC 1350's exception: the
+      receiver holds the complete file, see [cosim_safe].) *)
+  Theorem cosim_terminates : forall f_sr f_rs, nb <= 65535 ->
+    exists fuel,
+      let p := pair_run sc rc f_sr f_rs fuel (pair_init sc rc f_sr F) in
+      (r_phase (p_r p) = RDone OutOk /\ written_bytes (w_file (r_w (p_r p))) = F /\ s_phase (p_s p) = SDone OutOk)
+      \/ s_phase (p_s p) = SDone OutTimeout.
+  Proof.
+    intros f_sr f_rs Hn. destruct (G_init f_sr) as (a & r0 & c & j & Hg).
+    destruct (terminates_from f_sr f_rs _ (N.to_nat (nb - a)) (N.to_nat (max_retries - r0)) _ _ a r0 c j Hn Hg
+                (Nat.le_refl _) ltac:(lia) ltac:(lia) (Nat.le_refl _)) as (fuel & He).
+    exists fuel. exact He.
+  Qed.
+
+  (** The sender gives up only through the retry limit: the step that ends it in [OutTimeout] is
+      a failed receive attempt made with [max_retries - 1] failed attempts already counted. *)
+  Lemma inner_top_phase : forall st st' out, s_inner_top sc st = (st', out) ->
+    s_phase st' = s_phase st \/ s_phase st' = SDone OutSendFail.
+  Proof.
+    intros st st' out H. unfold s_inner_top in H. destruct (s_tmo sc <=? s_since st).
+    - destruct (send_window _ _ _ _ _) as [[o n] ok]. destruct ok; inversion H; subst; cbn [s_phase]; auto.
+    - inversion H; subst. auto.
+  Qed.
+
+  Lemma outer_top_phase : forall st st' out, s_outer_top sc st = (st', out) ->
+    s_phase st' = SInWindow \/ s_phase st' = SDone OutSendFail \/ s_phase st' = SDone OutIo.
+  Proof.
+    intros st st' out H. unfold s_outer_top in H. destruct (s_filled st).
+    - destruct (fill (s_w st)) as [[w' full]|e].
+      + apply inner_top_phase in H. cbn [s_phase] in H. tauto.
+      + inversion H; subst. cbn [s_done s_set_phase s_phase]. tauto.
+    - apply inner_top_phase in H. cbn [s_phase] in H. tauto.
+  Qed.
+
+  Theorem give_up_only_at_limit : forall st e st' out, s_phase st = SInWindow ->
+    send_step sc st e = (st', out) -> s_phase st' = SDone OutTimeout ->
+    s_retry st + 1 = max_retries /\ is_failed_attempt (receive max_request_packet_size e).
+  Proof.
+    intros st e st' out Hp E Hd.
+    assert (Hfa : is_failed_attempt (receive max_request_packet_size e) -> s_retry st + 1 = max_retries).
+    { intros Hf. rewrite step_failed_attempt in E by assumption.
+      destruct (N.eqb_spec (s_retry st + 1) max_retries) as [Heq|_]; [exact Heq|].
+      apply inner_top_phase in E. cbn [s_phase] in E. destruct E as [E|E]; rewrite E in Hd; discriminate. }
+    destruct (receive max_request_packet_size e) as [pk| |] eqn:Hr; [destruct pk as [f m os|f m os|n d|n|c m|os]| |];
+      try (split; [apply Hfa; exact I|exact I]); exfalso;
+      unfold send_step in E; rewrite Hp in E; cbn [s_bn s_w s_filled s_retry s_since s_nsent s_phase s_abs] in E; rewrite Hr in E.
+    - destruct (_ <? _).
+      + destruct (65535 <? _); [inversion E; subst; discriminate|].
+        destruct (remove _ _) as [w'|err]; [|inversion E; subst; discriminate].
+        destruct (_ && _); [inversion E; subst; discriminate|].
+        apply outer_top_phase in E. destruct E as [E|[E|E]]; rewrite E in Hd; discriminate.
+      + apply inner_top_phase in E. cbn [s_phase] in E. destruct E as [E|E]; rewrite E in Hd; discriminate.
+    - inversion E; subst. discriminate.
+    - inversion E; subst. discriminate.
+  Qed.
 End Live.
 
 (** The single-fault statement of Props/C04.v (receiver side), for every kind of fault of the
@@ -1690,4 +2547,64 @@ Proof.
     exists fuel. cbv zeta. split; [exact H1|]. unfold recv_final_file. rewrite H1. discriminate.
   - destruct (cosim_ack_hold sc rc F Hwf eq_refl eq_refl eq_refl eq_refl eq_refl eq_refl eq_refl eq_refl i) as (fuel & H1 & _).
     exists fuel. cbv zeta. split; [exact H1|]. unfold recv_final_file. rewrite H1. discriminate.
+Qed.
+
+(** The general statements of Props/C04.v, for the configuration the servers and clients use
+    (duplicate-packets mode off), every block size, window size, file of at most 65535 blocks and
+    EVERY fault schedule on both channels. *)
+Theorem any_schedule_statement_holds :
+  forall (blk ws : N) (F : bytes) (f1 f2 : list (N * fault)), 0 < blk -> 1 <= ws <= 65535 -> nblk blk F <= 65535 ->
+  exists fuel,
+    let sc := mk_scfg blk ws 1000000000 1 false [] in
+    let rc := mk_rcfg blk ws 1000000000 1 true [] in
+    let p := pair_run sc rc f1 f2 fuel (pair_init sc rc f1 F) in
+    (r_phase (p_r p) = RDone OutOk /\ written_bytes (w_file (r_w (p_r p))) = F /\ s_phase (p_s p) = SDone OutOk)
+    \/ s_phase (p_s p) = SDone OutTimeout.
+Proof.
+  intros blk ws F f1 f2 Hb Hw Hn.
+  set (sc := mk_scfg blk ws 1000000000 1 false []). set (rc := mk_rcfg blk ws 1000000000 1 true []).
+  assert (Hwf : wf_params (s_blk sc) (s_ws sc)) by (split; assumption).
+  exact (cosim_terminates sc rc F Hwf eq_refl eq_refl eq_refl eq_refl eq_refl eq_refl eq_refl eq_refl f1 f2 Hn).
+Qed.
+
+Theorem quiet_after_faults_statement_holds :
+  forall (blk ws : N) (F : bytes) (f1 f2 : list (N * fault)) (fuel0 : nat),
+  0 < blk -> 1 <= ws <= 65535 -> nblk blk F <= 65535 ->
+  let sc := mk_scfg blk ws 1000000000 1 false [] in
+  let rc := mk_rcfg blk ws 1000000000 1 true [] in
+  let p := pair_run sc rc f1 f2 fuel0 (pair_init sc rc f1 F) in
+  clean_from f1 (ch_n (p_sr p)) -> clean_from f2 (ch_n (p_rs p)) ->
+  s_phase (p_s p) = SInWindow -> s_retry (p_s p) + 1 < max_retries -> r_phase (p_r p) = RRun ->
+  exists fuel,
+    let p' := pair_run sc rc f1 f2 fuel p in
+    r_phase (p_r p') = RDone OutOk /\ written_bytes (w_file (r_w (p_r p'))) = F /\ s_phase (p_s p') = SDone OutOk.
+Proof.
+  intros blk ws F f1 f2 fuel0 Hb Hw Hn sc rc.
+  assert (Hwf : wf_params (s_blk sc) (s_ws sc)) by (split; assumption).
+  exact (cosim_recovers sc rc F Hwf eq_refl eq_refl eq_refl eq_refl eq_refl eq_refl eq_refl eq_refl f1 f2 fuel0 Hn).
+Qed.
+
+Lemma clean_from_bound : forall fs n, forallb (fun e => fst e <? n) fs = true -> clean_from fs n.
+Proof.
+  intros fs n H i Hi. induction fs as [|[k f] fs IH]; [reflexivity|].
+  cbn [forallb fst] in H. apply andb_prop in H. destruct H as [H1 H2]. cbn [fault_at].
+  destruct (N.eqb_spec k i); [lia|]. apply IH. exact H2.
+Qed.
+
+(** The premises of [quiet_after_faults_statement_holds] are met by heavily disturbed runs: ten
+    faults on the DATA channel (drops, a repetition, two holds), three on the ACK channel, four
+    time-outs already on the sender's count. *)
+Example quiet_after_faults_premises :
+  let sc := mk_scfg 4 3 1000000000 1 false [] in
+  let rc := mk_rcfg 4 3 1000000000 1 true [] in
+  let F := map N.of_nat (seq 1 30) in
+  let f1 := [(1, NfDrop); (2, NfHold); (4, NfDup); (5, NfDrop); (7, NfDrop); (8, NfDrop); (9, NfHold)] in
+  let f2 := [(0, NfDrop); (1, NfDup); (2, NfHold)] in
+  let p := pair_run sc rc f1 f2 15 (pair_init sc rc f1 F) in
+  clean_from f1 (ch_n (p_sr p)) /\ clean_from f2 (ch_n (p_rs p)) /\
+  s_phase (p_s p) = SInWindow /\ s_retry (p_s p) = 4 /\ r_phase (p_r p) = RRun /\ r_cnt (p_r p) = 3 /\
+  nblk 4 F = 8.
+Proof.
+  cbv zeta. split; [apply clean_from_bound; vm_compute; reflexivity|].
+  split; [apply clean_from_bound; vm_compute; reflexivity|]. vm_compute. repeat split; reflexivity.
 Qed.
